@@ -4,6 +4,8 @@ package c18
 import (
 	"fmt"
 	"os"
+	"runtime"
+	"strings"
 	"testing"
 	"unsafe"
 
@@ -267,78 +269,132 @@ func TestDrawnSizes(t *testing.T) {
 	})
 }
 
-// State machine: interleave Get, write-through-pointer and read-back.
+// smState is the state-machine model: two pools of the same kind and block size used side by side
+// (objects of different pools must be distinct too, and one pool's growth must not disturb the
+// other's objects), every object with the stamp last written through it.
+type smState struct {
+	kind  string
+	size  int
+	pools [2]pool
+	ptrs  []unsafe.Pointer
+	model []int // stamp last written through ptrs[i]; 0 = never written
+	seen  map[unsafe.Pointer]int
+	next  int
+	hist  string
+}
+
+func newSM(kind string, size int) *smState {
+	return &smState{kind: kind, size: size, pools: [2]pool{newPool(kind, size), newPool(kind, size)}, seen: map[unsafe.Pointer]int{}, next: 1,
+		hist: fmt.Sprintf("%s size=%d:", kind, size)}
+}
+
+// apply executes one operation ("get", "get0", "getB", "w<i>", "drop"); it returns a failure message or "".
+func (m *smState) apply(op string) string {
+	m.hist += " " + op
+	switch {
+	case op == "get" || op == "get0" || op == "getB":
+		pl := m.pools[0]
+		if op == "getB" {
+			pl = m.pools[1]
+		}
+		q := pl.get()
+		if q == nil {
+			return m.hist + ": Get returned nil"
+		}
+		if j, dup := m.seen[q]; dup {
+			return fmt.Sprintf("%s: Get returned the object of request #%d again", m.hist, j)
+		}
+		m.seen[q] = len(m.ptrs)
+		m.ptrs = append(m.ptrs, q)
+		if op == "get0" {
+			// an object that is requested but not written yet must still be a new one
+			m.model = append(m.model, 0)
+		} else {
+			pl.write(q, m.next)
+			m.model = append(m.model, m.next)
+			m.next++
+		}
+	case op == "drop":
+		// the second pool is replaced by a fresh one (its objects stay referenced and valid, like the
+		// tokens of a tree that outlives its parser)
+		m.pools[1] = newPool(m.kind, m.size)
+		runtime.GC()
+	case len(op) > 1 && op[0] == 'w':
+		var i int
+		fmt.Sscan(op[1:], &i)
+		if i < 0 || i >= len(m.ptrs) {
+			return ""
+		}
+		m.pools[0].write(m.ptrs[i], m.next)
+		m.model[i] = m.next
+		m.next++
+	}
+	return m.check()
+}
+
+func (m *smState) check() string {
+	for i, q := range m.ptrs {
+		if m.model[i] == 0 {
+			continue // never written: its content is unspecified
+		}
+		s, ok := m.pools[0].read(q)
+		if !ok || s != m.model[i] {
+			return fmt.Sprintf("%s: object #%d reads stamp %d (consistent=%v), model says %d", m.hist, i, s, ok, m.model[i])
+		}
+	}
+	return ""
+}
+
+// State machine: interleave Get (on two pools), write-through-pointer, read-back, pool replacement.
 func TestStateMachine(t *testing.T) {
-	harness.Check(t, "state-machine", 600, 10000, func(rt *rapid.T) {
+	harness.Check(t, "state-machine", 1500, 40000, func(rt *rapid.T) {
 		kind := rapid.SampledFrom([]string{"token", "position"}).Draw(rt, "kind")
 		size := rapid.IntRange(1, 12).Draw(rt, "size")
-		p := newPool(kind, size)
-		var ptrs []unsafe.Pointer
-		var model []int // stamp last written through ptrs[i]
-		seen := map[unsafe.Pointer]int{}
-		hist := fmt.Sprintf("%s size=%d:", kind, size)
-		next := 1
-		fail := func(format string, a ...interface{}) {
-			harness.Fail(rt, "state-machine", []byte(hist), map[string]string{"history": hist}, format, a...)
+		m := newSM(kind, size)
+		step := func(op string) {
+			if msg := m.apply(op); msg != "" {
+				harness.Fail(rt, "state-machine", []byte(m.hist), map[string]string{"history": m.hist}, "%s", msg)
+			}
 		}
+		usedB, dropped := false, false
 		rt.Repeat(map[string]func(*rapid.T){
-			"get": func(rt *rapid.T) {
-				q := p.get()
-				hist += " get"
-				if q == nil {
-					fail("%s: Get returned nil", hist)
-				}
-				if j, dup := seen[q]; dup {
-					fail("%s: Get returned the object of request #%d again", hist, j)
-				}
-				seen[q] = len(ptrs)
-				ptrs = append(ptrs, q)
-				p.write(q, next)
-				model = append(model, next)
-				next++
+			"get":           func(rt *rapid.T) { step("get") },
+			"get-untouched": func(rt *rapid.T) { step("get0") },
+			"get-second-pool": func(rt *rapid.T) {
+				usedB = true
+				step("getB")
 			},
-			"get-untouched": func(rt *rapid.T) {
-				// an object that is requested but not written yet must still be a new one
-				q := p.get()
-				hist += " get0"
-				if q == nil {
-					fail("%s: Get returned nil", hist)
+			"replace-second-pool": func(rt *rapid.T) {
+				if !usedB {
+					rt.Skip("second pool unused")
 				}
-				if j, dup := seen[q]; dup {
-					fail("%s: Get returned the object of request #%d again", hist, j)
-				}
-				seen[q] = len(ptrs)
-				ptrs = append(ptrs, q)
-				model = append(model, 0)
+				dropped = true
+				step("drop")
 			},
 			"write": func(rt *rapid.T) {
-				if len(ptrs) == 0 {
+				if len(m.ptrs) == 0 {
 					rt.Skip("nothing allocated")
 				}
-				i := rapid.IntRange(0, len(ptrs)-1).Draw(rt, "i")
-				hist += fmt.Sprintf(" w%d", i)
-				p.write(ptrs[i], next)
-				model[i] = next
-				next++
+				step(fmt.Sprintf("w%d", rapid.IntRange(0, len(m.ptrs)-1).Draw(rt, "i")))
 			},
 			"": func(rt *rapid.T) {
-				for i, q := range ptrs {
-					if model[i] == 0 {
-						continue // never written: its content is unspecified
-					}
-					s, ok := p.read(q)
-					if !ok || s != model[i] {
-						fail("%s: object #%d reads stamp %d (consistent=%v), model says %d", hist, i, s, ok, model[i])
-					}
+				if msg := m.check(); msg != "" {
+					harness.Fail(rt, "state-machine", []byte(m.hist), map[string]string{"history": m.hist}, "%s", msg)
 				}
 			},
 		})
 		harness.Eval()
-		if len(ptrs) > size {
-			harness.NonTrivial([]byte(hist), hist)
+		if len(m.ptrs) > size {
+			harness.NonTrivial([]byte(m.hist), m.hist)
 			harness.Class("sm_boundary_crossed")
 		} else {
 			harness.Class("sm_single_block")
+		}
+		if usedB {
+			harness.Class("sm_two_pools")
+		}
+		if dropped {
+			harness.Class("sm_pool_replaced")
 		}
 	})
 }
@@ -354,8 +410,23 @@ func TestReplay(t *testing.T) {
 	}
 	var kind string
 	var size, count int
-	if v.Meta["history"] != "" {
-		t.Skip("state-machine histories are replayed through -rapid.seed; message: " + v.Message)
+	if h := v.Meta["history"]; h != "" {
+		// "<kind> size=<n>: op op ..." as recorded by the state machine
+		var size int
+		f := strings.Fields(h)
+		if len(f) < 2 {
+			t.Skip("unreadable history")
+		}
+		fmt.Sscanf(f[1], "size=%d:", &size)
+		m := newSM(f[0], size)
+		for _, op := range f[2:] {
+			harness.Eval()
+			if msg := m.apply(op); msg != "" {
+				harness.Failf(t, "state-machine", []byte(h), v.Meta, "%s", msg)
+				return
+			}
+		}
+		return
 	}
 	kind = v.Meta["kind"]
 	fmt.Sscan(v.Meta["size"], &size)
